@@ -1,6 +1,10 @@
 ---------------------------- MODULE Trace_Airfoil ----------------------------
 (* Judge for C10.                                                              *)
 EXTENDS Airfoil, JudgeBase
+\* how far an edge point may be from the section: methods that place the point on the section itself (ExactClass) get the analysis
+\* tolerance + cap sagitta + 20 (edge_tol_mc); the arc-based methods (const, ransac, converge) place it on an arc FITTED to the section
+\* within the analysis tolerance and may evaluate that arc beyond the span it was fitted on, where it leaves the section faster
+ETol(r, kind) == IF kind \in ExactClass THEN r.edge_tol_mc ELSE 5 * r.edge_tol_mc
 VARIABLE i
 
 GLen(r) == LET c == r.camber IN 0   \* (unused)
@@ -28,7 +32,7 @@ JVariant(r, v, tag) ==
         /\ Clause(i, "C10." \o tag \o ".edge_points_finite", v.le.fin /\ v.te.fin)
         /\ (v.le.fin /\ v.te.fin) =>
             /\ Clause(i, "C10." \o tag \o ".edge_points_on_section",
-                   (v.le.geom = "open" \/ v.le.dsec <= r.edge_tol_mc) /\ (v.te.geom = "open" \/ v.te.dsec <= r.edge_tol_mc))
+                   (v.le.geom = "open" \/ v.le.dsec <= ETol(r, r.le.kind)) /\ (v.te.geom = "open" \/ v.te.dsec <= ETol(r, r.te.kind)))
             /\ Clause(i, "C10." \o tag \o ".edge_points_end_the_camber", PNear2(v.cam_first, v.le.p, 4) /\ PNear2(v.cam_last, v.te.p, 4))
             \* the located edges are the ends of the generating envelope (checked at the ends the section really has)
             /\ Clause(i, "C10." \o tag \o ".edge_points_at_true_ends",
@@ -40,8 +44,9 @@ JVariant(r, v, tag) ==
                                                                                /\ v.upper.maxdev <= TPartition /\ v.lower.maxdev <= TPartition)
                 /\ Clause(i, "C10." \o tag \o ".upper_on_requested_side", v.up_side = 1)
                 /\ r.closed => Clause(i, "C10." \o tag \o ".surfaces_meet_at_edges",
-                       /\ (PNear2(v.upper.a, v.le.p, r.edge_tol_mc + 40) \/ PNear2(v.upper.b, v.le.p, r.edge_tol_mc + 40)) /\ (PNear2(v.upper.a, v.te.p, r.edge_tol_mc + 40) \/ PNear2(v.upper.b, v.te.p, r.edge_tol_mc + 40))
-                       /\ (PNear2(v.lower.a, v.le.p, r.edge_tol_mc + 40) \/ PNear2(v.lower.b, v.le.p, r.edge_tol_mc + 40)) /\ (PNear2(v.lower.a, v.te.p, r.edge_tol_mc + 40) \/ PNear2(v.lower.b, v.te.p, r.edge_tol_mc + 40)))
+                       LET tl == ETol(r, r.le.kind) + 40 tt == ETol(r, r.te.kind) + 40 IN
+                       /\ (PNear2(v.upper.a, v.le.p, tl) \/ PNear2(v.upper.b, v.le.p, tl)) /\ (PNear2(v.upper.a, v.te.p, tt) \/ PNear2(v.upper.b, v.te.p, tt))
+                       /\ (PNear2(v.lower.a, v.le.p, tl) \/ PNear2(v.lower.b, v.le.p, tl)) /\ (PNear2(v.lower.a, v.te.p, tt) \/ PNear2(v.lower.b, v.te.p, tt)))
 
 JInvariance(r, base, v, tag) ==
     (base.ok /\ v.ok /\ base.le.some /\ v.le.some /\ base.te.some /\ v.te.some /\ base.le.fin /\ v.le.fin /\ base.te.fin /\ v.te.fin) =>
